@@ -1,5 +1,5 @@
 (* Property C08 - a rolling update of healthy children always completes and cleans up. Statements about Model/Rolling.v; the linear bound is proved on an abstract automaton (C08_terminates_linear_partial), its tie to sync_rolling_update is exercised by the correspondence runs. *)
-From MC Require Import Generated Model.Composite Model.TracePreds Model.Safe Model.Rolling Proofs.SafeLemmas Proofs.C04Proofs Proofs.C06Proofs Proofs.RollGate Proofs.C07Proofs Proofs.C08Proofs.
+From MC Require Import Generated Model.Composite Model.TracePreds Model.Safe Model.Rolling Proofs.SafeLemmas Proofs.C04Proofs Proofs.C06Proofs Proofs.RollGate Proofs.C07Proofs Proofs.RollClaims Proofs.RollMoves Proofs.C08Proofs.
 
 Theorem C08_never_waits_on_healthy :
   forall (c : ccfg) (pns : string) (observed : umap) (latest : prev) (rest : list prev) (cl : claims),
@@ -25,6 +25,33 @@ Theorem C08_waits_only_on_unready :
            In name (ck_names ck) /\ ~ child_ready c pns latest observed ck name.
 Proof. exact (@C08_waits_only_on_unready). Qed.
 Print Assumptions C08_waits_only_on_unready.
+
+Theorem C08_waits_only_on_desired :
+  forall (c : ccfg) (pns : string) (observed : umap) (latest : prev) (rest prs2 : list prev)
+           (why : string),
+         sync_rolling_update c pns observed (latest :: rest) = Some (prs2, RWaiting why) ->
+         exists (l2 : prev) (rest2 : list prev) (ck : rck) (name : string),
+           prs2 = l2 :: rest2 /\
+           pr_desired l2 = pr_desired latest /\
+           In ck (rev_children (pr_rev l2)) /\
+           is_rolling c (ck_group ck) (ck_kind ck) = true /\
+           In name (ck_names ck) /\
+           ~ child_ready c pns l2 observed ck name /\
+           find_desired (pr_desired latest) (ck_group ck) (ck_kind ck) name <> None.
+Proof. exact (@C08_waits_only_on_desired). Qed.
+Print Assumptions C08_waits_only_on_desired.
+
+Theorem C08_undesired_not_listed :
+  forall (c : ccfg) (ds : list (string * string * string * json)) (prs prs' : list prev) 
+           (cl' : claims) (p' : prev) (ck : rck) (name : string),
+         sync_revision_claims c ds 0 prs [] = (prs', cl') ->
+         In p' prs' ->
+         In ck (rev_children (pr_rev p')) ->
+         In name (ck_names ck) ->
+         is_rolling c (ck_group ck) (ck_kind ck) = true /\
+         find_desired ds (ck_group ck) (ck_kind ck) name <> None.
+Proof. exact (@C08_undesired_not_listed). Qed.
+Print Assumptions C08_undesired_not_listed.
 
 Theorem C08_progress :
   forall (c : ccfg) (pns : string) (observed : umap) (latest : prev) (rest : list prev) 
@@ -115,19 +142,6 @@ Theorem C08_emptied_revision_deleted :
               |}) (manage_revisions ns observed_revs (map pr_rev (prune (l :: rest)))).
 Proof. exact (@C08_emptied_revision_deleted). Qed.
 Print Assumptions C08_emptied_revision_deleted.
-
-Theorem C08_stale_name_stalls :
-  child_readyb stall_c "ns" stall_latest stall_observed
-           {| ck_group := "g"; ck_kind := "K"; ck_names := ["x"; "y"] |} "x" = true /\
-         find_desired (pr_desired stall_latest) "g" "K" "y" = None /\
-         find_observed "ns" stall_observed "g" "K" "y" = None /\
-         option_map (fun r : list prev * rollout_state => (map pr_rev (fst r), map pr_desired (fst r), snd r))
-           (sync_rolling_update stall_c "ns" stall_observed [stall_latest; stall_old]) =
-         Some
-           (map pr_rev [stall_latest; stall_old], map pr_desired [stall_latest; stall_old],
-            RWaiting "missing child K y").
-Proof. exact (@C08_stale_name_stalls). Qed.
-Print Assumptions C08_stale_name_stalls.
 
 Theorem C08_same_name_not_deleted :
   In cex_old [cex_old] /\
